@@ -23,21 +23,21 @@ EXTENDS QueryLog
 Trace == TLCEval(ndJsonDeserialize("trace.ndjson"))   \* TLCEval: read the file once
 
 VARIABLES l, bad
-tvars == <<mem, cur, rot, batch, flushPending, memSize, fileEnabled, enabled, anon, clock, pal,
+tvars == <<mem, cur, rot, batch, flushPending, memSize, fileEnabled, enabled, anon, ign, clock, pal,
            recorded, inScope, lastReply, l, bad>>
 
 Compact(q) == IF q = <<>> THEN <<0, 0, 0>> ELSE <<Len(q), q[1].ts, q[Len(q)].ts>>
 
 (* The logged projection describes the spec's state.                        *)
-ProjOK(s, m, c, r, fp, ms, en, an, ck) ==
+ProjOK(s, m, c, r, fp, ms, en, an, ig, ck) ==
     /\ s.mem = Compact(m) /\ s.cur = Compact(c) /\ s.rot = Compact(r)
-    /\ s.fp = fp /\ s.ms = ms /\ s.en = en /\ s.an = an /\ s.ck = ck
+    /\ s.fp = fp /\ s.ms = ms /\ s.en = en /\ s.an = an /\ s.ig = ig /\ s.ck = ck
 
 TInit ==
     /\ Trace[1].ev = "init"
     /\ mem = <<>> /\ cur = <<>> /\ rot = <<>> /\ batch = <<>> /\ flushPending = FALSE
     /\ memSize = Trace[1].ms /\ fileEnabled = (Trace[1].en = 1)
-    /\ enabled = TRUE /\ anon = FALSE /\ clock = 0 /\ pal = 0
+    /\ enabled = TRUE /\ anon = FALSE /\ ign = FALSE /\ clock = 0 /\ pal = 0
     /\ recorded = <<>> /\ inScope = TRUE /\ lastReply = [st |-> "none"]
     /\ l = 2 /\ bad = {}
 
@@ -51,7 +51,7 @@ Call(e) ==
     \/ e.ev = "rotate"    /\ Rotate
     \/ e.ev = "rotcheck"  /\ UNCHANGED vars
     \/ e.ev = "clear"     /\ Clear
-    \/ e.ev = "conf"      /\ SetConf(e.en = 1, e.an = 1)
+    \/ e.ev = "conf"      /\ SetConf(e.en = 1, e.an = 1, e.ig = 1)
     \/ e.ev = "restart"   /\ Restart(e.ms)
 
 (* The automatic flush runs in a goroutine of its own: the driver cannot     *)
@@ -64,7 +64,7 @@ TCall ==
     /\ flushPending => Trace[l].ev \in {"autoflush", "autoflushfail"}
     /\ Call(Trace[l])
     /\ \/ Trace[l].ev = "rec" /\ flushPending'
-       \/ ProjOK(Trace[l].s, mem', cur', rot', flushPending', memSize', enabled', anon', clock')
+       \/ ProjOK(Trace[l].s, mem', cur', rot', flushPending', memSize', enabled', anon', ign', clock')
     /\ l' = l + 1 /\ UNCHANGED bad
 
 (* While an automatic flush is pending the real driver does not search;     *)
